@@ -938,6 +938,13 @@ func ruleLibParse(c *Ctx, r *R) {
 			name := pc.Call.StaticCallee().Name()
 			key := fmt.Sprintf("%s:%s#%d", ssaFuncName(fn), name, i+1)
 			site := c.Pos(instrPos(pc))
+			// inside the conversion of text to a Number an obligation this rule cannot discharge structurally is decided
+			// by SPEC-tonumber-string when that evaluation is clean (its texts include every Go-only numeric form, the
+			// signed zeros, both hexadecimal spellings and out-of-range exponents)
+			evaluated := func() bool {
+				tn := toNumberStringFunc(c)
+				return tn != nil && (fn == tn || c.partOf(fn, tn.Name(), 0)) && c.eClean("SPEC-tonumber-string")
+			}
 			if name == "Atoi" {
 				r.ok(key+":grammar", site, "strconv.Atoi is base 10 without prefixes or separators: it accepts an optionally signed run of decimal digits only, all of it ES5 syntax")
 			} else if why := parseInputIsRegexpMatch(c, fn, pc); why != "" {
@@ -948,7 +955,12 @@ func ruleLibParse(c *Ctx, r *R) {
 				r.ok("reviewed:"+key, site, why)
 			} else {
 				okGuard, leak := grammarGuarded(c, fn, pc)
-				r.check(okGuard, key+":grammar", site, "dominated by a regexp guard that rejects every Go-only numeric form", fmt.Sprintf("strconv.%s accepts more than the ES5 grammar; in %s the dominating regexp guard must reject every Go-only form and accept every ES5 form: it lets through / wrongly rejects %s", name, ssaFuncName(fn), leak))
+				if !okGuard && evaluated() {
+					r.ok(key+":grammar", site, subsumedBy("SPEC-tonumber-string"))
+					okGuard = true
+				} else {
+					r.check(okGuard, key+":grammar", site, "dominated by a regexp guard that rejects every Go-only numeric form", fmt.Sprintf("strconv.%s accepts more than the ES5 grammar; in %s the dominating regexp guard must reject every Go-only form and accept every ES5 form: it lets through / wrongly rejects %s", name, ssaFuncName(fn), leak))
+				}
 			}
 			_ = regexpGuard
 			// an integer parser whose result becomes a Number: the integer has no negative zero, so "-0" (a valid
@@ -967,14 +979,22 @@ func ruleLibParse(c *Ctx, r *R) {
 				grammarCutOnly = true
 				okGuard, _ := grammarGuardedAt(c, fn, pc, pc.Call.Args[0])
 				goOnlyNumericForms, grammarCutOnly = old, false
-				r.check(okGuard, key+":negzero", site, "no spelling of negative zero reaches the integer parser (a guard on every path rejects `-0`)",
-					fmt.Sprintf("%s converts text to a Number through strconv.%s and float64(...) with nothing on the path that keeps `-0` away from it: an integer has no negative zero, so Number(\"-0\") becomes +0 and 1/Number(\"-0\") is Infinity instead of -Infinity (ES5 9.3.1: the MV of -0 is -0)", ssaFuncName(fn), name))
+				if !okGuard && evaluated() {
+					r.ok(key+":negzero", site, subsumedBy("SPEC-tonumber-string"))
+				} else {
+					r.check(okGuard, key+":negzero", site, "no spelling of negative zero reaches the integer parser (a guard on every path rejects `-0`)",
+						fmt.Sprintf("%s converts text to a Number through strconv.%s and float64(...) with nothing on the path that keeps `-0` away from it: an integer has no negative zero, so Number(\"-0\") becomes +0 and 1/Number(\"-0\") is Infinity instead of -Infinity (ES5 9.3.1: the MV of -0 is -0)", ssaFuncName(fn), name))
+				}
 			}
 			if name == "ParseFloat" {
 				if _, ok := libParseRangeReviewed[ssaFuncName(fn)]; ok {
 					r.ok(key+":range:reviewed", site, libParseRangeReviewed[ssaFuncName(fn)])
 				} else {
-					r.check(mentionsErrRange, key+":range", site, "ErrRange handled", "strconv.ParseFloat reports ErrRange for a well-formed literal that rounds to ±Inf (ES5: the result is ±Infinity); this function treats every error as a malformed number")
+					if !mentionsErrRange && evaluated() {
+						r.ok(key+":range", site, subsumedBy("SPEC-tonumber-string"))
+					} else {
+						r.check(mentionsErrRange, key+":range", site, "ErrRange handled", "strconv.ParseFloat reports ErrRange for a well-formed literal that rounds to ±Inf (ES5: the result is ±Infinity); this function treats every error as a malformed number")
+					}
 				}
 			}
 		}
